@@ -1,12 +1,13 @@
-(* C13 model, part 6: the whole system for histories with ADMIN grants (documents with channel assignments, admin
-   channels of the user and of roles, admin roles of the user, role deletion and re-creation, pulls) as one executable
-   state machine that allocates sequences, maintains the documents' channel histories and the per-channel logs,
-   runs the invalidate / rebuild protocol (GrantSys.v) and answers pulls with Feed.pull.  It produces, at every pull,
-   the SNAPSHOT the real feed reads; the correspondence compares snapshot and rows with the real database.
+(* C13 model, part 6: the whole system (documents with channel assignments and SYNC-FUNCTION grants -- access() to the
+   user or to a role, role() to the user --, admin channels of the user and of roles, admin roles of the user, role
+   deletion and re-creation, pulls) as one executable state machine that allocates sequences, maintains the documents'
+   channel histories, their access maps (doc.Access / doc.RoleAccess) and the per-channel logs, runs the
+   invalidate / rebuild protocol (GrantSys.v) -- the set a rebuild computes is explicit grants + what the access views
+   confer + "!" -- and answers pulls with Feed.pull.  It produces, at every pull, the SNAPSHOT the real feed reads; the
+   correspondence compares snapshot and rows with the real database.
 
    Used to state the end-to-end property (client_matches_visible) over operation lists, and to evaluate the
-   histories that refute it.  Not modelled here: sync-function grants (access() / role()); they are covered by the
-   snapshot-level correspondence of Feed.pull only. *)
+   histories that refute it. *)
 From SG Require Import Base.Prelude C20.SeqIdGen C20.SeqId C13.Revocation C13.Feed C13.Client C13.DocHist C13.GrantSys.
 Open Scope N_scope.
 
@@ -16,7 +17,9 @@ Record sdoc := mkSDoc {
   sd_id : N; sd_seq : N; sd_rev : N; sd_live : bool;
   sd_active : list N;                        (* channels of the current revision, ascending *)
   sd_removed : list (N * (N * N * bool));    (* channel -> (sequence, revision, tombstone) of its removal *)
-  sd_cs : list docent; sd_csh : list docent }.
+  sd_cs : list docent; sd_csh : list docent;
+  sd_acc : list (N * tset);                  (* doc.Access: grantee (0 = the user, r = role r) -> channel -> sequence *)
+  sd_racc : tset }.                          (* doc.RoleAccess of the user: role -> sequence *)
 
 Record sys := mkSys {
   y_next : N;                       (* next sequence *)
@@ -29,7 +32,8 @@ Record sys := mkSys {
   y_g : gstate }.
 
 Inductive sop :=
-| SPut (d : N) (chans : list N)
+| SPut (d : N) (chans : list N) (acc : list (N * list N)) (rol : list N)
+    (* acc: access(grantee, channels), grantee 0 = the user, r = role r; rol: role(user, roles) *)
 | SDel (d : N)
 | SUChans (set : list N)
 | SURoles (set : list N)
@@ -46,8 +50,23 @@ Definition update_at_seq (t : tset) (set : list N) (s : N) : tset :=
 Definition same_keys (t : tset) (set : list N) : bool :=
   forallb (fun '(k, _) => mem k set) t && forallb (fun k => tmem k t) set.
 
-(* the grants a rebuild computes: explicit + "!" at sequence 1 *)
-Definition computed_chans (explicit : tset) : tset := tadd public_chan 1 explicit.
+Definition sorted_set (l : list N) : list N := fold_right set_add [] l.
+
+(* ---------- the access views ---------- *)
+Fixpoint acc_get (k : N) (l : list (N * tset)) : tset :=
+  match l with [] => [] | (k', t) :: r => if k' =? k then t else acc_get k r end.
+
+(* what the views confer on grantee k, merged into [t] (TimedSet.Add: the earliest sequence wins) *)
+Definition view_add (k : N) (docs : list sdoc) (t : tset) : tset :=
+  fold_left (fun t x => tadd_at (acc_get k (sd_acc x)) 0 t) docs t.
+Definition view_roles_add (docs : list sdoc) (t : tset) : tset :=
+  fold_left (fun t x => tadd_at (sd_racc x) 0 t) docs t.
+
+(* the grants a rebuild computes: explicit + views + "!" at sequence 1 *)
+Definition computed_chans (k : N) (docs : list sdoc) (explicit : tset) : tset :=
+  tadd public_chan 1 (view_add k docs explicit).
+Definition computed_roles (docs : list sdoc) (explicit : tset) : tset :=
+  tadd_at explicit 0 (view_roles_add docs []).
 
 Fixpoint rexp_get (r : N) (l : list (N * tset)) : tset :=
   match l with [] => [] | (k, t) :: rest => if k =? r then t else rexp_get r rest end.
@@ -57,22 +76,20 @@ Fixpoint rexp_put (r : N) (t : tset) (l : list (N * tset)) : list (N * tset) :=
   | (k, v) :: rest => if k =? r then (r, t) :: rest else (k, v) :: rexp_put r t rest
   end.
 
-(* loads *)
-Definition load_user (y : sys) : sys :=
-  let g := y_g y in
-  let g1 := step g (RebuildUser (computed_chans (y_uexp y))) in
-  let g2 := step g1 (RebuildUserRoles (y_urexp y)) in
-  mkSys (y_next y) (y_nrev y) (y_docs y) (y_uexp y) (y_urexp y) (y_useq y) (y_rexp y) g2.
-
-Definition load_role (r : N) (y : sys) : sys :=
-  mkSys (y_next y) (y_nrev y) (y_docs y) (y_uexp y) (y_urexp y) (y_useq y) (y_rexp y)
-        (step (y_g y) (RebuildRole r (computed_chans (rexp_get r (y_rexp y))))).
-
-Definition load_all (y : sys) : sys :=
-  fold_left (fun y '(r, _) => load_role r y) (g_roles (y_g y)) (load_user y).
-
 Definition with_g (y : sys) (g : gstate) : sys :=
   mkSys (y_next y) (y_nrev y) (y_docs y) (y_uexp y) (y_urexp y) (y_useq y) (y_rexp y) g.
+
+(* loads: the rebuilds a load performs, as operations of the grant state machine *)
+Definition gops_load_user (y : sys) : list gop :=
+  [RebuildUser (computed_chans 0 (y_docs y) (y_uexp y)); RebuildUserRoles (computed_roles (y_docs y) (y_urexp y))].
+Definition gops_load_role (r : N) (y : sys) : list gop :=
+  [RebuildRole r (computed_chans r (y_docs y) (rexp_get r (y_rexp y)))].
+Definition gops_load_all (y : sys) : list gop :=
+  gops_load_user y ++ flat_map (fun '(r, _) => gops_load_role r y) (g_roles (y_g y)).
+
+Definition load_user (y : sys) : sys := with_g y (run (y_g y) (gops_load_user y)).
+Definition load_role (r : N) (y : sys) : sys := with_g y (run (y_g y) (gops_load_role r y)).
+Definition load_all (y : sys) : sys := with_g y (run (y_g y) (gops_load_all y)).
 
 (* ---------- documents ---------- *)
 Fixpoint doc_get (d : N) (l : list sdoc) : option sdoc :=
@@ -89,77 +106,121 @@ Fixpoint rm_put (c : N) (v : N * N * bool) (l : list (N * (N * N * bool))) : lis
   | (k, w) :: r => if k =? c then (c, v) :: r else (k, w) :: rm_put c v r
   end.
 
-Definition sorted_set (l : list N) : list N := fold_right set_add [] l.
+(* the channels access() calls of one revision confer on grantee k *)
+Definition acc_for (k : N) (acc : list (N * list N)) : list N :=
+  sorted_set (flat_map (fun '(k', v) => if k' =? k then v else []) acc).
 
-(* one write of document d: new channel set [chans] (empty and not live for a tombstone) *)
-Definition write_doc (y : sys) (d : N) (chans : list N) (live : bool) : sys :=
+(* UserAccessMap.updateAccess: (new map, grantees whose grant set changed).  Per grantee the channel set is updated
+   with TimedSet.UpdateAtSequence (kept grants keep their sequence, new ones get the write's); grantees left with
+   nothing are dropped *)
+Definition acc_keys (old : list (N * tset)) (acc : list (N * list N)) : list N :=
+  sorted_set (map fst old ++ map fst acc).
+Definition update_access (old : list (N * tset)) (acc : list (N * list N)) (s : N) : list (N * tset) * list N :=
+  let keys := acc_keys old acc in
+  (flat_map (fun k => match update_at_seq (acc_get k old) (acc_for k acc) s with
+                      | [] => []
+                      | t' => [(k, t')]
+                      end) keys,
+   filter (fun k => negb (same_keys (acc_get k old) (acc_for k acc))) keys).
+
+(* MarkPrincipalsChanged: invalidate at the write's sequence *)
+Definition inval_grantee (s : N) (k : N) : gop := if k =? 0 then InvalUser s else InvalRole k s.
+
+Definition doc_old (y : sys) (d : N) : sdoc :=
+  match doc_get d (y_docs y) with
+  | Some x => x
+  | None => mkSDoc d 0 0 false [] [] [] [] [] []
+  end.
+
+(* the invalidations a write of document d with these grants performs *)
+Definition write_gops (y : sys) (d : N) (acc : list (N * list N)) (rol : list N) : list gop :=
+  let s := y_next y in
+  let old := doc_old y d in
+  map (inval_grantee s) (snd (update_access (sd_acc old) acc s))
+  ++ (if same_keys (sd_racc old) (sorted_set rol) then [] else [InvalUserRoles s]).
+
+(* one write of document d: new channel set [chans] (empty and not live for a tombstone), new grants *)
+Definition write_doc (y : sys) (d : N) (chans : list N) (acc : list (N * list N)) (rol : list N) (live : bool) : sys :=
   let s := y_next y in
   let rev := y_nrev y in
-  let old := match doc_get d (y_docs y) with
-             | Some x => x
-             | None => mkSDoc d 0 0 false [] [] [] []
-             end in
+  let old := doc_old y d in
   let new_ := sorted_set chans in
   let left := filter (fun c => negb (mem c new_)) (sd_active old) in
   let removed1 := fold_left (fun acc c => rm_put c (s, rev, negb live) acc) left (sd_removed old) in
   let removed2 := filter (fun '(c, _) => negb (mem c new_)) removed1 in
-  let '(cs, csh) := update_channels (sd_active old) new_ s (sd_cs old, sd_csh old) in
+  let cs := update_channels (sd_active old) new_ s (sd_cs old, sd_csh old) in
+  let acc' := fst (update_access (sd_acc old) acc s) in
+  let racc' := update_at_seq (sd_racc old) (sorted_set rol) s in
   mkSys (s + 1) (rev + 1)
-        (doc_put (mkSDoc d s rev live new_ removed2 cs csh) (y_docs y))
-        (y_uexp y) (y_urexp y) (y_useq y) (y_rexp y) (y_g y).
+        (doc_put (mkSDoc d s rev live new_ removed2 (fst cs) (snd cs) acc' racc') (y_docs y))
+        (y_uexp y) (y_urexp y) (y_useq y) (y_rexp y) (run (y_g y) (write_gops y d acc rol)).
 
-(* ---------- one operation that is not a pull ---------- *)
-Definition sys_step (y : sys) (o : sop) : sys :=
+(* ---------- one operation ---------- *)
+(* what it does to the grant state machine (a pull: the loads) *)
+Definition sys_gops (y : sys) (o : sop) : list gop :=
   match o with
-  | SPut d chans => write_doc y d chans true
+  | SPut d _ acc rol => write_gops y d acc rol
   | SDel d =>
       match doc_get d (y_docs y) with
-      | Some x => if sd_live x then write_doc y d [] false else y
-      | None => y
+      | Some x => if sd_live x then write_gops y d [] [] else []
+      | None => []
       end
-  | SUChans set =>
-      let y1 := load_user y in
-      if same_keys (y_uexp y1) set then y1
-      else
-        let s := y_next y1 in
-        mkSys (s + 1) (y_nrev y1) (y_docs y1) (update_at_seq (y_uexp y1) set s) (y_urexp y1) s (y_rexp y1)
-              (step (y_g y1) (InvalUser s))
-  | SURoles set =>
-      let y1 := load_user y in
-      if same_keys (y_urexp y1) set then y1
-      else
-        let s := y_next y1 in
-        mkSys (s + 1) (y_nrev y1) (y_docs y1) (y_uexp y1) (update_at_seq (y_urexp y1) set s) s (y_rexp y1)
-              (step (y_g y1) (InvalUserRoles s))
+  | SUChans set => gops_load_user y ++ (if same_keys (y_uexp y) (sorted_set set) then [] else [InvalUser (y_next y)])
+  | SURoles set => gops_load_user y ++ (if same_keys (y_urexp y) (sorted_set set) then [] else [InvalUserRoles (y_next y)])
   | SRChans r set =>
       match role_get r (g_roles (y_g y)) with
       | Some (_, false) =>
-          let y1 := load_role r y in
-          let ex := rexp_get r (y_rexp y1) in
-          if same_keys ex set then y1
-          else
-            let s := y_next y1 in
-            mkSys (s + 1) (y_nrev y1) (y_docs y1) (y_uexp y1) (y_urexp y1) (y_useq y1)
-                  (rexp_put r (update_at_seq ex set s) (y_rexp y1))
-                  (step (y_g y1) (InvalRole r s))
+          gops_load_role r y ++ (if same_keys (rexp_get r (y_rexp y)) (sorted_set set) then [] else [InvalRole r (y_next y)])
       | _ =>
-          (* missing or deleted: NewRoleNoChannels (valid, channels {!}), always a new sequence *)
-          let s := y_next y in
-          let g1 := step (y_g y) (CreateRole r (computed_chans [])) in
-          let ex := update_at_seq [] set s in
-          let g2 := match set with [] => g1 | _ => step g1 (InvalRole r s) end in
-          mkSys (s + 1) (y_nrev y) (y_docs y) (y_uexp y) (y_urexp y) (y_useq y) (rexp_put r ex (y_rexp y)) g2
+          (* missing or deleted: NewRoleNoChannels (valid: what the views confer + "!") *)
+          CreateRole r (computed_chans r (y_docs y) []) :: match sorted_set set with [] => [] | _ => [InvalRole r (y_next y)] end
       end
   | SDelRole r =>
       match role_get r (g_roles (y_g y)) with
+      | Some (_, false) => gops_load_role r y ++ [DeleteRole r (y_next y)]
+      | _ => []
+      end
+  | SPull _ => gops_load_all y
+  end.
+
+(* one operation that is not a pull *)
+Definition sys_step (y : sys) (o : sop) : sys :=
+  let g := run (y_g y) (sys_gops y o) in
+  let s := y_next y in
+  match o with
+  | SPut d chans acc rol => write_doc y d chans acc rol true
+  | SDel d =>
+      match doc_get d (y_docs y) with
+      | Some x => if sd_live x then write_doc y d [] [] [] false else y
+      | None => y
+      end
+  | SUChans set0 =>
+      let set := sorted_set set0 in      (* the sets of an admin request are sets *)
+      if same_keys (y_uexp y) set then with_g y g
+      else mkSys (s + 1) (y_nrev y) (y_docs y) (update_at_seq (y_uexp y) set s) (y_urexp y) s (y_rexp y) g
+  | SURoles set0 =>
+      let set := sorted_set set0 in
+      if same_keys (y_urexp y) set then with_g y g
+      else mkSys (s + 1) (y_nrev y) (y_docs y) (y_uexp y) (update_at_seq (y_urexp y) set s) s (y_rexp y) g
+  | SRChans r set0 =>
+      let set := sorted_set set0 in
+      match role_get r (g_roles (y_g y)) with
       | Some (_, false) =>
-          let y1 := load_role r y in
-          let s := y_next y1 in
-          mkSys (s + 1) (y_nrev y1) (y_docs y1) (y_uexp y1) (y_urexp y1) (y_useq y1) (y_rexp y1)
-                (step (y_g y1) (DeleteRole r s))
+          let ex := rexp_get r (y_rexp y) in
+          if same_keys ex set then with_g y g
+          else mkSys (s + 1) (y_nrev y) (y_docs y) (y_uexp y) (y_urexp y) (y_useq y)
+                     (rexp_put r (update_at_seq ex set s) (y_rexp y)) g
+      | _ =>
+          (* always a new sequence *)
+          mkSys (s + 1) (y_nrev y) (y_docs y) (y_uexp y) (y_urexp y) (y_useq y)
+                (rexp_put r (update_at_seq [] set s) (y_rexp y)) g
+      end
+  | SDelRole r =>
+      match role_get r (g_roles (y_g y)) with
+      | Some (_, false) => mkSys (s + 1) (y_nrev y) (y_docs y) (y_uexp y) (y_urexp y) (y_useq y) (y_rexp y) g
       | _ => y
       end
-  | SPull _ => y
+  | SPull _ => with_g y g
   end.
 
 (* ---------- the snapshot a pull reads ---------- *)
@@ -179,22 +240,33 @@ Definition chan_log (c : N) (docs : list sdoc) : list logentry :=
                     | None => acc
                     end) docs [].
 
+(* the channels whose logs the snapshot lists: the harness's five, then whatever else the documents mention *)
+Definition doc_chans (docs : list sdoc) : list N :=
+  sorted_set (flat_map (fun x => sd_active x ++ map fst (sd_removed x)) docs).
+Definition log_chans (docs : list sdoc) : list N :=
+  all_chans ++ filter (fun c => negb (mem c all_chans)) (doc_chans docs).
+
 Definition snapshot_of (y : sys) : snapshot :=
   let g := y_g y in
   mkSnap (y_next y - 1)
          (mkUser (y_useq y) (p_set (g_user g)) (p_hist (g_user g)) (p_set (g_uroles g)) (p_hist (g_uroles g)))
          (view_roles g)
-         (map (fun c => (c, chan_log c (y_docs y))) all_chans)
+         (map (fun c => (c, chan_log c (y_docs y))) (log_chans (y_docs y)))
          (map (fun x => mkDoc (sd_id x) (sd_cs x ++ sd_csh x) (Some (sd_active x))) (y_docs y)).
 
-(* ---------- specification side: what the user can see, from the admin grants alone ---------- *)
+(* ---------- specification side: what the user can see, from the grants alone ---------- *)
+(* the channels live documents grant to grantee k *)
+Definition doc_grants (k : N) (docs : list sdoc) : list N :=
+  flat_map (fun x => map fst (acc_get k (sd_acc x))) docs.
+Definition doc_role_grants (docs : list sdoc) : list N := flat_map (fun x => map fst (sd_racc x)) docs.
+
 Definition truth_chans (y : sys) : list N :=
-  public_chan :: map fst (y_uexp y)
-  ++ flat_map (fun '(r, _) =>
+  public_chan :: map fst (y_uexp y) ++ doc_grants 0 (y_docs y)
+  ++ flat_map (fun r =>
                  match role_get r (g_roles (y_g y)) with
-                 | Some (_, false) => public_chan :: map fst (rexp_get r (y_rexp y))
+                 | Some (_, false) => public_chan :: map fst (rexp_get r (y_rexp y)) ++ doc_grants r (y_docs y)
                  | _ => []
-                 end) (y_urexp y).
+                 end) (map fst (y_urexp y) ++ doc_role_grants (y_docs y)).
 
 Definition sys_visible (y : sys) : list N :=
   map sd_id (filter (fun x => sd_live x && existsb (fun c => mem c (truth_chans y)) (sd_active x)) (y_docs y)).
@@ -210,7 +282,7 @@ Fixpoint sys_trace (ops : list sop) (y : sys) (c : client) (since : seqid) : lis
   match ops with
   | [] => []
   | SPull limit :: rest =>
-      let y1 := load_all y in
+      let y1 := sys_step y (SPull limit) in
       let snap := snapshot_of y1 in
       let rows := pull snap since limit in
       let c1 := apply_rows c rows in
